@@ -449,9 +449,12 @@ def _calculate_statistic(
 
     min_x: float64 = min(x)
     if isnan(p).any():
+        # Fall back to the values nearest to the three points of interest
+        y_all: NDArray[float64] = y
         y = zeros(3, dtype=float64)
         for i, _x in enumerate((min_x, intercept_x, max_x)):
-            y[i] = y[argmin(abs(x - _x)).flatten()]
+            y[i] = y_all[argmin(abs(x - _x))]
+        x = array([min_x, intercept_x, max_x], dtype=float64)
     else:
         x = array([min_x, intercept_x, max_x], dtype=float64)
         y = _intersecting_lines_function(x, *p)
